@@ -136,7 +136,7 @@ func (rs *ResourceSubscription) Unsubscribe(sub Subscriber) {
 }
 
 func (rs *ResourceSubscription) handleEvent(r *ResourceEvent) {
-	verifNote("rsEvent", "name", rs.e.ResourceName, "query", rs.query, "ev", r.Event, "state", int(rs.state), "resetting", rs.resetting, "subs", len(rs.subs))
+	verifNote("rsEvent", "name", rs.e.ResourceName, "query", rs.query, "rp", rs, "ev", r.Event, "state", int(rs.state), "resetting", rs.resetting, "subs", len(rs.subs))
 	// Discard if event happened before resource was loaded,
 	// unless it is a reaccess. Then we let the event be passed further.
 	if rs.state <= stateRequested && r.Event != "reaccess" {
@@ -174,7 +174,7 @@ func (rs *ResourceSubscription) handleEvent(r *ResourceEvent) {
 		return
 	}
 
-	verifNote("rsFwd", "name", rs.e.ResourceName, "query", rs.query, "ev", r.Event, "version", int(rs.version), "subs", len(rs.subs))
+	verifNote("rsFwd", "name", rs.e.ResourceName, "query", rs.query, "rp", rs, "ev", r.Event, "version", int(rs.version), "subs", len(rs.subs))
 	rs.e.mu.Unlock()
 	for sub := range rs.subs {
 		sub.Event(r)
@@ -477,7 +477,7 @@ func (rs *ResourceSubscription) handleResetResource(t *Throttle) {
 	}
 
 	rs.resetting = true
-	verifNote("resetres", "name", rs.e.ResourceName, "query", rs.query, "thr", verifID(t))
+	verifNote("resetres", "name", rs.e.ResourceName, "query", rs.query, "rp", rs, "thr", verifID(t))
 
 	// Create request
 	subj := "get." + rs.e.ResourceName
@@ -510,7 +510,7 @@ func (rs *ResourceSubscription) handleResetAccess(t *Throttle) {
 }
 
 func (rs *ResourceSubscription) processResetGetResponse(payload []byte, err error) {
-	verifNote("rsResetAns", "name", rs.e.ResourceName, "query", rs.query, "state", int(rs.state), "failed", err != nil)
+	verifNote("rsResetAns", "name", rs.e.ResourceName, "query", rs.query, "rp", rs, "state", int(rs.state), "failed", err != nil)
 	// The events received while resetting
 	events := rs.resetEvents
 	rs.resetEvents = nil
